@@ -319,73 +319,78 @@ type bexpr struct {
 	kinds string // which kinds: l d s, m = mixed list
 	cb    bool
 	fails bool // the built-in returns an error part-way through (after it has begun to iterate)
+	cancels bool // its key= call-back is a host built-in that cancels the thread and returns normally
 }
 
 var bexprs = []bexpr{
-	{"sorted", "sorted(%c)", "lds", false, false},
-	{"sorted-key", "sorted(%c, key=%f)", "lds", true, false},
-	{"list", "list(%c)", "lds", false, false},
-	{"tuple", "tuple(%c)", "lds", false, false},
-	{"set", "set(%c)", "lds", false, false},
-	{"dict", "dict(%c)", "d", false, false},
-	{"dict-update", "{}.update(%c)", "d", false, false},
-	{"dict-update-pairs", "{}.update([(x, 1) for x in %c])", "lds", false, false},
-	{"extend", "[].extend(%c)", "lds", false, false},
-	{"join", "\",\".join(%c)", "lds", false, false},
-	{"min", "min(%c)", "lds", false, false},
-	{"max-key", "max(%c, key=%f)", "lds", true, false},
-	{"min-key", "min(%c, key=%f)", "lds", true, false},
-	{"any", "any(%c)", "lds", false, false},
-	{"all", "all(%c)", "lds", false, false},
-	{"zip", "zip(%c, %c)", "lds", false, false},
-	{"enumerate", "enumerate(%c)", "lds", false, false},
-	{"reversed", "reversed(%c)", "l", false, false},
-	{"len-list", "len(list(%c))", "lds", false, false},
-	{"set-union", "set().union(%c)", "lds", false, false},
-	{"set-update", "set().update(%c)", "lds", false, false},
-	{"set-issubset", "set().issubset(%c)", "lds", false, false},
-	{"set-intersection", "set([\"a\"]).intersection(%c)", "lds", false, false},
-	{"list-plus", "[] + list(%c)", "lds", false, false},
-	{"in", "\"zz\" in %c", "lds", false, false},
-	{"dict-items", "%c.items()", "d", false, false},
-	{"dict-keys", "%c.keys()", "d", false, false},
-	{"dict-values", "%c.values()", "d", false, false},
-	{"str", "str(%c)", "lds", false, false},
-	{"list-index", "%c.index(\"c\")", "l", false, false},
-	{"eq", "%c == %c", "lds", false, false},
+	{"sorted", "sorted(%c)", "lds", false, false, false},
+	{"sorted-key", "sorted(%c, key=%f)", "lds", true, false, false},
+	{"list", "list(%c)", "lds", false, false, false},
+	{"tuple", "tuple(%c)", "lds", false, false, false},
+	{"set", "set(%c)", "lds", false, false, false},
+	{"dict", "dict(%c)", "d", false, false, false},
+	{"dict-update", "{}.update(%c)", "d", false, false, false},
+	{"dict-update-pairs", "{}.update([(x, 1) for x in %c])", "lds", false, false, false},
+	{"extend", "[].extend(%c)", "lds", false, false, false},
+	{"join", "\",\".join(%c)", "lds", false, false, false},
+	{"min", "min(%c)", "lds", false, false, false},
+	{"max-key", "max(%c, key=%f)", "lds", true, false, false},
+	{"min-key", "min(%c, key=%f)", "lds", true, false, false},
+	{"any", "any(%c)", "lds", false, false, false},
+	{"all", "all(%c)", "lds", false, false, false},
+	{"zip", "zip(%c, %c)", "lds", false, false, false},
+	{"enumerate", "enumerate(%c)", "lds", false, false, false},
+	{"reversed", "reversed(%c)", "l", false, false, false},
+	{"len-list", "len(list(%c))", "lds", false, false, false},
+	{"set-union", "set().union(%c)", "lds", false, false, false},
+	{"set-update", "set().update(%c)", "lds", false, false, false},
+	{"set-issubset", "set().issubset(%c)", "lds", false, false, false},
+	{"set-intersection", "set([\"a\"]).intersection(%c)", "lds", false, false, false},
+	{"list-plus", "[] + list(%c)", "lds", false, false, false},
+	{"in", "\"zz\" in %c", "lds", false, false, false},
+	{"dict-items", "%c.items()", "d", false, false, false},
+	{"dict-keys", "%c.keys()", "d", false, false, false},
+	{"dict-values", "%c.values()", "d", false, false, false},
+	{"str", "str(%c)", "lds", false, false, false},
+	{"list-index", "%c.index(\"c\")", "l", false, false, false},
+	{"eq", "%c == %c", "lds", false, false, false},
 	// error paths inside built-ins, on the mixed list ["a", 1, [2]]
-	{"err-sorted", "sorted(%c)", "m", false, true},
-	{"err-sorted-key", "sorted(%c, key=len)", "m", false, true},
-	{"err-min", "min(%c)", "m", false, true},
-	{"err-max", "max(%c)", "m", false, true},
-	{"err-join", "\",\".join(%c)", "m", false, true},
-	{"err-set", "set(%c)", "m", false, true},
-	{"err-dict", "dict(%c)", "m", false, true},
-	{"err-dict-update", "{}.update(%c)", "m", false, true},
-	{"err-dict-pairs", "dict([(x, 1) for x in %c])", "m", false, true},
-	{"err-dictcomp-key", "{x: 1 for x in %c}", "m", false, true},
-	{"err-zip", "zip(%c, 5)", "m", false, true},
-	{"err-set-union", "set().union(%c)", "m", false, true},
-	{"err-set-update", "set().update(%c)", "m", false, true},
-	{"err-set-issubset", "set([7]).issubset(%c)", "m", false, true},
-	{"err-set-intersection", "set([1]).intersection(%c)", "m", false, true},
-	{"err-set-difference", "set([1]).difference(%c)", "m", false, true},
-	{"err-set-symdiff", "set([1]).symmetric_difference(%c)", "m", false, true},
-	{"err-index", "%c.index(3)", "m", false, true},
-	{"err-remove", "list(%c).remove(3)", "m", false, true},
-	{"err-unpack-in-for", "[a for a, b in %c]", "m", false, true},
+	{"err-sorted", "sorted(%c)", "m", false, true, false},
+	{"err-sorted-key", "sorted(%c, key=len)", "m", false, true, false},
+	{"err-min", "min(%c)", "m", false, true, false},
+	{"err-max", "max(%c)", "m", false, true, false},
+	{"err-join", "\",\".join(%c)", "m", false, true, false},
+	{"err-set", "set(%c)", "m", false, true, false},
+	{"err-dict", "dict(%c)", "m", false, true, false},
+	{"err-dict-update", "{}.update(%c)", "m", false, true, false},
+	{"err-dict-pairs", "dict([(x, 1) for x in %c])", "m", false, true, false},
+	{"err-dictcomp-key", "{x: 1 for x in %c}", "m", false, true, false},
+	{"err-zip", "zip(%c, 5)", "m", false, true, false},
+	{"err-set-union", "set().union(%c)", "m", false, true, false},
+	{"err-set-update", "set().update(%c)", "m", false, true, false},
+	{"err-set-issubset", "set([7]).issubset(%c)", "m", false, true, false},
+	{"err-set-intersection", "set([1]).intersection(%c)", "m", false, true, false},
+	{"err-set-difference", "set([1]).difference(%c)", "m", false, true, false},
+	{"err-set-symdiff", "set([1]).symmetric_difference(%c)", "m", false, true, false},
+	{"err-index", "%c.index(3)", "m", false, true, false},
+	{"err-remove", "list(%c).remove(3)", "m", false, true, false},
+	{"err-unpack-in-for", "[a for a, b in %c]", "m", false, true, false},
+	// the key function is a host built-in that cancels the thread: the other call-backs are entered on a cancelled thread
+	{"sorted-cancelkey", "sorted(%c, key=cancelkey)", "lds", false, false, true},
+	{"min-cancelkey", "min(%c, key=cancelkey)", "lds", false, false, true},
+	{"max-cancelkey", "max(%c, key=cancelkey)", "lds", false, false, true},
 	// on the pair list [("a", 1), c1]: the second "pair" has length 3
-	{"pairs-dict", "dict(%c)", "p", false, true},
-	{"pairs-dict-kw", "dict(%c, z=1)", "p", false, true},
-	{"pairs-update", "{}.update(%c)", "p", false, true},
-	{"pairs-update-kw", "{}.update(%c, z=1)", "p", false, true},
-	{"pairs-unpack-comp", "[a for a, b in %c]", "p", false, true},
-	{"pairs-unpack-dictcomp", "{a: b for a, b in %c}", "p", false, true},
-	{"pairs-sorted", "sorted(%c)", "p", false, true},
-	{"pairs-min", "min(%c)", "p", false, true},
-	{"pairs-zip-star", "zip(*%c)", "p", false, false},
-	{"pairs-flatten", "[y for x in %c for y in x]", "p", false, false},
-	{"pairs-list", "[list(x) for x in %c]", "p", false, false},
+	{"pairs-dict", "dict(%c)", "p", false, true, false},
+	{"pairs-dict-kw", "dict(%c, z=1)", "p", false, true, false},
+	{"pairs-update", "{}.update(%c)", "p", false, true, false},
+	{"pairs-update-kw", "{}.update(%c, z=1)", "p", false, true, false},
+	{"pairs-unpack-comp", "[a for a, b in %c]", "p", false, true, false},
+	{"pairs-unpack-dictcomp", "{a: b for a, b in %c}", "p", false, true, false},
+	{"pairs-sorted", "sorted(%c)", "p", false, true, false},
+	{"pairs-min", "min(%c)", "p", false, true, false},
+	{"pairs-zip-star", "zip(*%c)", "p", false, false, false},
+	{"pairs-flatten", "[y for x in %c for y in x]", "p", false, false, false},
+	{"pairs-list", "[list(x) for x in %c]", "p", false, false, false},
 }
 
 // ---- paths (terms of C06.Model.prog / hprog) ----
@@ -510,6 +515,8 @@ func (e *emitter) render(stmts []Stmt, ind string, sb *strings.Builder, loopVar 
 			sb.WriteString(ind + e.exprSrc(s) + "\n")
 		case "nop":
 			sb.WriteString(ind + "pass\n")
+		case "cancel":
+			sb.WriteString(ind + "cancelkey(0)\n")
 		case "break", "continue":
 			sb.WriteString(ind + s.K + "\n")
 		case "return":
@@ -556,7 +563,11 @@ func (e *emitter) render(stmts []Stmt, ind string, sb *strings.Builder, loopVar 
 			src := strings.ReplaceAll(strings.ReplaceAll(be.tmpl, "%c", cv(s.C)), "%f", fmt.Sprintf("f%d", s.ID))
 			fmt.Fprintf(sb, "%sr = %s\n", ind, src)
 		case "pushiter":
-			fmt.Fprintf(sb, "%sgoiter(%s, \"%s\", \"%s\", f%d)\n", ind, cv(s.C), s.Name, s.Exit, s.ID)
+			if s.Exit == "cancelcb" {
+				fmt.Fprintf(sb, "%sgoiter(%s, \"%s\", \"full\", cancelkey)\n", ind, cv(s.C), s.Name)
+			} else {
+				fmt.Fprintf(sb, "%sgoiter(%s, \"%s\", \"%s\", f%d)\n", ind, cv(s.C), s.Name, s.Exit, s.ID)
+			}
 		default:
 			panic("unknown stmt " + s.K)
 		}
@@ -681,6 +692,12 @@ func (e *emitter) step(s Stmt, p *path, elem int) int {
 	case "nop":
 		p.items = append(p.items, item{kind: "act", s: "SNop"})
 		return cNext
+	case "cancel":
+		// the host built-in returns normally; the next loop head of this frame finds the thread cancelled
+		p.items = append(p.items, item{kind: "builtin", h: &hpath{exit: "ORet"}})
+		p.exit = "OErr"
+		e.tags["cancel-by-host-builtin"] = true
+		return cErr
 	case "break":
 		return cBreak
 	case "continue":
@@ -824,12 +841,22 @@ func (e *emitter) step(s Stmt, p *path, elem int) int {
 		if ctl != cNext {
 			p.exit = h.exit
 		}
+		if be.cancels && ctl == cNext {
+			p.exit = "OErr" // the built-in returns; the next loop head finds the thread cancelled
+			return cErr
+		}
 		return ctl
 	case "pushiter":
 		// goiter(c, api, exit, cb): host code ranging over a Go push iterator
 		e.tags["pushiter:"+s.Name+":"+kindName[kind]+":"+s.Exit] = true
 		h := &hpath{exit: "ORet"}
 		ctl := cNext
+		if s.Exit == "cancelcb" {
+			h.items = append(h.items, hitem{kind: "iterdefer", s: fmt.Sprintf("HIterDefer %d", s.C)})
+			p.items = append(p.items, item{kind: "builtin", h: h})
+			p.exit = "OErr"
+			return cErr
+		}
 		if s.Exit != "create" {
 			rounds := 1
 			if s.Exit == "twice" {
@@ -908,6 +935,10 @@ func (r *runner) predeclared() starlark.StringDict {
 		}),
 		"boom": starlark.NewBuiltin("boom", func(t *starlark.Thread, _ *starlark.Builtin, args starlark.Tuple, _ []starlark.Tuple) (starlark.Value, error) {
 			panic("boom")
+		}),
+		"cancelkey": starlark.NewBuiltin("cancelkey", func(t *starlark.Thread, _ *starlark.Builtin, args starlark.Tuple, _ []starlark.Tuple) (starlark.Value, error) {
+			t.Cancel("host")
+			return starlark.MakeInt(0), nil
 		}),
 		"ident": starlark.NewBuiltin("ident", func(t *starlark.Thread, _ *starlark.Builtin, args starlark.Tuple, _ []starlark.Tuple) (starlark.Value, error) {
 			return starlark.MakeInt(len(args)), nil
@@ -1022,7 +1053,7 @@ func compile(src string) (*starlark.Program, error) {
 	return prog, err
 }
 
-func runScenario(prog *starlark.Program, kinds []int, frozen []bool, sizes []int, limit uint64) (res result, ok bool) {
+func runScenario(prog *starlark.Program, kinds []int, frozen []bool, sizes []int, limit uint64, precancel bool) (res result, ok bool) {
 	w := newWorld(kinds, frozen, sizes)
 	r := &runner{w: w}
 	th := &starlark.Thread{}
@@ -1040,6 +1071,9 @@ func runScenario(prog *starlark.Program, kinds []int, frozen []bool, sizes []int
 	} else {
 		th.SetMaxExecutionSteps(steps0 + safetyLimit) // a scenario that accepts a mutation of what it iterates may never end
 	}
+	if precancel {
+		th.Cancel("host") // the call is entered on a thread that is already cancelled
+	}
 	func() {
 		defer func() {
 			if e := recover(); e != nil {
@@ -1051,8 +1085,8 @@ func runScenario(prog *starlark.Program, kinds []int, frozen []bool, sizes []int
 		if err != nil {
 			res.Outcome = "err"
 			res.Msg = err.Error()
-			if strings.Contains(res.Msg, "cancelled") {
-				res.Outcome = "cancelled"
+			if strings.Contains(res.Msg, "cancelled") && !strings.Contains(res.Msg, "cancelled: host") {
+				res.Outcome = "cancelled" // by the step limit
 			}
 		} else {
 			res.Outcome = "ok"
@@ -1319,6 +1353,24 @@ func main() {
 			}
 			add("pushiter-in-loop:"+kn+":"+api, ks, nil, Stmt{K: "for", C: 0, Body: []Stmt{{K: "pushiter", C: 0, Name: api, Exit: "break", Body: []Stmt{{K: "attempt", C: 0, Mut: "add"}}}, {K: "attempt", C: 0, Mut: "add"}}}, Stmt{K: "attempt", C: 0, Mut: "add"})
 		}
+		// cancellation by host code that returns normally: the key function of sorted/min/max, the call-back of a
+		// push-iterator consumer, a built-in called from a loop body, a nested call or a call-back
+		for _, bn := range []string{"sorted-cancelkey", "min-cancelkey", "max-cancelkey"} {
+			add("hostcancel:"+kn+":"+bn, ks, nil, Stmt{K: "builtin", C: 0, Name: bn}, Stmt{K: "attempt", C: 0, Mut: "add"})
+			add("hostcancel-in-loop:"+kn+":"+bn, ks, nil, Stmt{K: "for", C: 0, Body: []Stmt{{K: "builtin", C: 0, Name: bn}, {K: "attempt", C: 0, Mut: "add"}}})
+			add("hostcancel-in-call:"+kn+":"+bn, ks, nil, Stmt{K: "for", C: 1, Body: []Stmt{{K: "call", Body: []Stmt{{K: "builtin", C: 0, Name: bn}}}}})
+		}
+		for _, api := range apis {
+			add("hostcancel:"+kn+":pushiter:"+api, ks, nil, Stmt{K: "pushiter", C: 0, Name: api, Exit: "cancelcb"}, Stmt{K: "attempt", C: 0, Mut: "add"})
+			add("hostcancel-in-loop:"+kn+":pushiter:"+api, ks, nil, Stmt{K: "for", C: 0, Body: []Stmt{{K: "pushiter", C: 0, Name: api, Exit: "cancelcb"}}})
+		}
+		for i := 0; i < 3; i += 2 {
+			add("hostcancel:"+kn+":for", ks, nil, Stmt{K: "for", C: 0, Body: []Stmt{{K: "attempt", C: 0, Mut: "add"}, at(i, Stmt{K: "cancel"})}}, Stmt{K: "attempt", C: 0, Mut: "add"})
+		}
+		add("hostcancel:"+kn+":nested-call", ks, nil, Stmt{K: "for", C: 0, Body: []Stmt{{K: "call", Body: []Stmt{{K: "for", C: 0, Body: []Stmt{{K: "cancel"}}}}}}})
+		add("hostcancel:"+kn+":callback", ks, nil, Stmt{K: "builtin", C: 0, Name: "sorted-key", Body: []Stmt{{K: "attempt", C: 0, Mut: "add"}, {K: "cancel"}}}, Stmt{K: "attempt", C: 0, Mut: "add"})
+		add("hostcancel:"+kn+":pushiter-callback", ks, nil, Stmt{K: "pushiter", C: 0, Name: "method", Exit: "full", Body: []Stmt{{K: "cancel"}}})
+		add("hostcancel:"+kn+":comp", ks, nil, Stmt{K: "for", C: 0, Body: []Stmt{{K: "cancel"}, {K: "comp", C: 0, C2: -1, Body: []Stmt{{K: "attempt", C: 0, Mut: "add"}}}}})
 		// frozen collection: iteration does not count, mutation always refused
 		add("frozen:"+kn, ks, []bool{true, false}, Stmt{K: "for", C: 0, Body: []Stmt{{K: "attempt", C: 0, Mut: "add"}, {K: "attempt", C: 1, Mut: "add"}}}, Stmt{K: "attempt", C: 0, Mut: "add"}, Stmt{K: "unpack", C: 0, N: 2})
 	}
@@ -1414,7 +1466,7 @@ func main() {
 			hx.Emit(line{Kind: "static-error", ID: id, Family: sc.family, Src: src, Kinds: sc.kinds, Frozen: sc.frozen, Res: &result{Msg: cerr.Error()}})
 			continue
 		}
-		res, ok := runScenario(prog, sc.kinds, sc.frozen, sc.sizes, 0)
+		res, ok := runScenario(prog, sc.kinds, sc.frozen, sc.sizes, 0, false)
 		if !ok {
 			hx.Emit(line{Kind: "static-error", ID: id, Family: sc.family, Src: src, Kinds: sc.kinds, Frozen: sc.frozen, Res: &res})
 			continue
@@ -1448,6 +1500,22 @@ func main() {
 			vkey = "random:" + strings.Join(sus, "+")
 		}
 		hx.Emit(line{Kind: "scenario", ID: id, Family: sc.family, Tags: tags, Src: src, Coq: coq, Kinds: sc.kinds, Frozen: sc.frozen, Expects: expects, Expected: b.cont, Init: initOf(sc), MustFail: b.mustFail, Res: &res, Viol: viol, VKey: vkey})
+		// the same call entered on a thread that the host has already cancelled
+		if r0, ok := runScenario(prog, sc.kinds, sc.frozen, sc.sizes, 0, true); ok {
+			v := oracle(r0, sc.frozen, nil, false)
+			if v == "" && r0.Outcome != "err" {
+				v = fmt.Sprintf("call on a cancelled thread ended with %q", r0.Outcome)
+			}
+			if v == "" && len(r0.Attempts) > 0 {
+				v = "the call on a cancelled thread executed built-ins"
+			}
+			l := line{Kind: "precancel", ID: id, Family: sc.family, Kinds: sc.kinds, Frozen: sc.frozen, Viol: v, VKey: "precancelled:" + strings.SplitN(sc.family, ":", 2)[0]}
+			if v != "" {
+				l.Src = src
+			}
+			l.Res = &r0
+			hx.Emit(l)
+		}
 		// step-limit cancellation at step indices of this call
 		T := res.Steps
 		if T == 0 || res.Outcome == "cancelled" || T > 20000 {
@@ -1461,7 +1529,7 @@ func main() {
 			if every > 1 && !(n <= 2 || n == T || (n+uint64(i))%every == 0) {
 				continue
 			}
-			r2, ok := runScenario(prog, sc.kinds, sc.frozen, sc.sizes, n)
+			r2, ok := runScenario(prog, sc.kinds, sc.frozen, sc.sizes, n, false)
 			if !ok {
 				continue
 			}
